@@ -779,10 +779,11 @@ func eofSiblingRule(R string) RuleFunc {
 }
 
 // slashEOFRule: the end of the input right after the first slash of an annotation is an error.
-func slashEOFRule(R string) RuleFunc {
+// sw sets the mark, clears clear it as their first statement, tail tests it before the lexeme stack.
+func slashEOFRule(R, sw string, clears []string, tail string) RuleFunc {
 	return func(c *core.Ctx) {
-		c.Rule(R, "the schema scanner remembers that it is between the two characters of an annotation opening (switchToAnnotation sets slashPending; stateAnyAnnotationStart and stateInlineAnnotationStart clear it as their first statement) and Next() raises ErrUnexpectedEOF when the input ends in that situation - before it looks at the lexeme stack. Otherwise `1 /` is accepted as if the slash were absent while `1 /⏎` is refused: a trailing line end changes the verdict")
-		c.Floor(R, 4)
+		c.Rule(R, "the scanner remembers that it is between the two characters of an annotation opening ("+sw+" sets slashPending; the states that read the second character clear it as their first statement) and "+tail+" raises ErrUnexpectedEOF when the input ends in that situation - before it looks at the lexeme stack. Otherwise `1 /` (`[1] /`) is accepted as if the slash were absent while `1 /⏎` is refused: a trailing line end changes the verdict, and a text that is not a list with optional annotations is an accepted enum rule")
+		c.Floor(R, 2+len(clears))
 		chk := func(fn string, pred func(body *ast.BlockStmt) bool, what, why string) {
 			d := c.P.FindDecl(fn)
 			if d == nil {
@@ -810,25 +811,33 @@ func slashEOFRule(R string) RuleFunc {
 			as, ok := b.List[0].(*ast.AssignStmt)
 			return ok && core.ExprStr(as.Lhs[0]) == "s.slashPending" && core.ExprStr(as.Rhs[0]) == "false"
 		}
-		chk("(*notations/jschema/scanner.Scanner).switchToAnnotation", sets("true"), "switchToAnnotation marks the pending slash", "the pending slash is not recorded")
-		chk("notations/jschema/scanner.stateAnyAnnotationStart", first, "stateAnyAnnotationStart clears the mark first", "the mark survives the second character: a complete annotation at the end of the text would be refused")
-		chk("notations/jschema/scanner.stateInlineAnnotationStart", first, "stateInlineAnnotationStart clears the mark first", "the mark survives the second character")
-		chk("(*notations/jschema/scanner.Scanner).Next", func(b *ast.BlockStmt) bool {
+		chk(sw, sets("true"), "the pending slash is marked", "the pending slash is not recorded")
+		for _, fn := range clears {
+			chk(fn, first, "the mark is cleared first when the second character arrives", "the mark survives the second character: a complete annotation at the end of the text would be refused")
+		}
+		chk(tail, func(b *ast.BlockStmt) bool {
 			ok := false
 			for _, st := range b.List {
 				if ifs, isIf := st.(*ast.IfStmt); isIf && core.ExprStr(ifs.Cond) == "s.slashPending" {
 					ast.Inspect(ifs.Body, func(n ast.Node) bool {
-						if call, isC := n.(*ast.CallExpr); isC && core.ExprStr(call.Fun) == "panic" {
-							ok = true
+						switch n := n.(type) {
+						case *ast.CallExpr:
+							if core.ExprStr(n.Fun) == "panic" {
+								ok = true
+							}
+						case *ast.ReturnStmt:
+							if len(n.Results) == 2 && core.ExprStr(n.Results[1]) != "nil" && core.ExprStr(n.Results[1]) != "errEOS" {
+								ok = true
+							}
 						}
 						return true
 					})
 				}
-				if ifs, isIf := st.(*ast.IfStmt); isIf && strings.Contains(core.ExprStr(ifs.Cond), "stack.Len() != 0") && !ok {
+				if ifs, isIf := st.(*ast.IfStmt); isIf && strings.Contains(core.ExprStr(ifs.Cond), "stack.Len()") && !ok {
 					return false // the stack test comes first
 				}
 			}
 			return ok
-		}, "Next() refuses the end of the input while a slash is pending", "the end of the input right after `/` is accepted")
+		}, "the end of the input is refused while a slash is pending", "the end of the input right after `/` is accepted")
 	}
 }
